@@ -286,14 +286,4 @@ def document(rng, dsx, sp, date="2024-01-01T00:00:00", decorate=True, header=Tru
     hdr = w.E("Header", hattrs) if header else None
     root = w.E("SpaceSystem", {"name": name} if name else None, hdr, tm, root=True)
     out = ET.tostring(root, pretty_print=sp.pretty, xml_declaration=True, encoding="utf-8")
-    if sp.mixed and sp.kind != "none":
-        # some kinds of element are spelled with the second prefix bound to the same namespace: lexically another
-        # spelling, the same elements (lxml itself always picks one prefix per namespace, hence the textual step)
-        pre = (sp.prefix + ":") if sp.kind == "prefix" else ""
-        names = ["SequenceContainer", "Parameter", "IntegerParameterType", "Comparison", "EntryList", "ParameterRefEntry",
-                 "IntegerDataEncoding", "BaseContainer", "EnumeratedParameterType", "Term", "ContainerSet"]
-        for nm in rng.sample(names, rng.randrange(2, 6)):
-            for a, b in ((f"<{pre}{nm} ", f"<alt:{nm} "), (f"<{pre}{nm}>", f"<alt:{nm}>"), (f"<{pre}{nm}/>", f"<alt:{nm}/>"),
-                         (f"</{pre}{nm}>", f"</alt:{nm}>")):
-                out = out.replace(a.encode(), b.encode())
     return out
